@@ -196,7 +196,7 @@ def run(ctx):
                'an empty window must write zero files; returning an empty table or raising are both accepted',
                'file-effect trace: sys.addaudithook open/remove events',
                'a memory limit that is refused before any pass over the SEDs and without writing anything, while larger limits serve the same window, yields no chunk size: outside the quantifier')
-    ctx.require_events('mono:run', 'file:checked', 'chunk-invariance', 'cube:nearest-slice')
+    ctx.require_events('mono:run', 'file:checked', 'chunk-invariance', 'cube:nearest-slice', 'cube:filter-list-re-used-across-packages')
     ctx.require_regimes('package:model-with-exactly-zero-cells', 'window:empty', 'window:single', 'chunk<n', 'chunk=n', 'chunk=1', 'window:default', 'window:other-unit', 'convolved-dir:pre-existing',
                         'package:sed-subdirectories', 'cube:no-uncertainties', 'cube:named-and-wavelength-filters', 'cube:aperture-dependent', 'cube:filter-other-unit')
     ipk = 0
@@ -362,8 +362,34 @@ def run(ctx):
             if not O.close(got[:, f], truth.flux[rows][:, 0, j], 1e-12):
                 ctx.violation('cube:not-nearest-slice', 'a wavelength given instead of a filter name did not select the slice at the nearest tabulated wavelength',
                               {'requested': w, 'cube_wav': truth.wav, 'cube_desc': desc, 'nearest': float(truth.wav[j]), 'got': got[:, f], 'expected': truth.flux[rows][:, 0, j]})
+        # the same list of wavelength filters (the caller's own objects, as handed to Models.read) serves one package after the
+        # other: every package must be asked for the wavelengths the caller put in
+        if not multi and with_unc:
+            from sedfitter.models import Models
+            want_um = [float(x_) for x_ in SHARED_WAV]
+            ties = any(len(truth.wav) > 1 and (np.sort(np.abs(truth.wav - w_))[1] - np.sort(np.abs(truth.wav - w_))[0]) < 1e-6 * w_ for w_ in want_um)
+            if not ties:
+                if not SHARED_FILTERS:
+                    SHARED_FILTERS.extend({'wav': w_ * u.micron, 'aperture_arcsec': 1.0} for w_ in want_um)
+                try:
+                    m_ = Models.read(d, SHARED_FILTERS, use_memmap=False)
+                    gm = np.asarray(m_.fluxes.to(u.mJy).value, float)
+                    rws = [truth.index(str(n_).strip()) for n_ in m_.names]
+                    ctx.event('cube:filter-list-re-used-across-packages')
+                    for f_, w_ in enumerate(want_um):
+                        j_ = int(np.argmin(np.abs(truth.wav - w_)))
+                        if gm.shape != (len(rws), len(want_um)) or not O.close(gm[:, f_], truth.flux[rws][:, 0, j_], 1e-12):
+                            ctx.violation('cube:not-nearest-slice:filter-list-re-used', 'with a filter list that already served another package, a wavelength did not select the slice nearest to the wavelength the caller asked for',
+                                          {'requested': w_, 'cube_wav': truth.wav, 'nearest': float(truth.wav[j_]), 'got': gm[:, f_] if gm.ndim == 2 else None, 'expected': truth.flux[rws][:, 0, j_]})
+                            break
+                except Exception as exc:
+                    ctx.raised(exc, 'cube:models-read-raised', 'Models.read with wavelength filters raised: %r' % (exc,), {'requested': want_um, 'cube_wav': truth.wav})
         ctx.case(('cube', it, ctx.shard), nontrivial=True)
         ctx.rmdir(d)
+
+
+SHARED_WAV = (0.9, 7.3, 55.0, 410.0)
+SHARED_FILTERS = []
 
 
 def replay(ctx, rec):
